@@ -147,6 +147,7 @@ pub fn gen_history(rng: &mut Rng, cfg: &GenCfg) -> Vec<Op> {
                 *b = ((i as u64).wrapping_mul(0x9E37_79B9).wrapping_add(a) >> 13) as u8;
             }
         }
+        rng.flv_prefix(type_id, &mut data);
         let m = Msg { type_id, msid, ts, data };
         last = Some(m.clone());
         ops.push(Op::Msg {
